@@ -120,7 +120,8 @@ def GetParams(s):
 
   # need to make sure that kwargs only happen after args are processed
   args = [GetArg(i[0]) for i in items if len(i) == 1]
-  kwargs = {i[0]: GetArg(i[1]) for i in items if len(i) == 2}
+  # a keyword value runs up to the next "," or ")": drop the blanks around it
+  kwargs = {i[0]: GetArg(i[1].strip()) for i in items if len(i) == 2}
 
   # check for syntax error
   for i in range(1, len(items)):
